@@ -159,11 +159,22 @@ def instances(tier, seed):
                 if (kind in ("read", "short") and op == "build" and "RawCopy" not in t) or (kind == "write" and op == "parse"):
                     continue
                 out.append(dict(name="fault %s/%s  %s" % (kind, op, t), params=dict(kind="fault", source=t, fault=kind, op=op, K=K)))
+    for t in ("GreedyRange(Lazy(Byte))", "GreedyRange(LazyStruct('a'/Byte))", "GreedyRange(LazyArray(2, Byte))", "GreedyRange(Byte)", "GreedyRange(Struct('a'/Lazy(Int16ub), 'b'/Byte))",
+              "RepeatUntil(lambda x, lst, ctx: len(lst) > 300, Byte)", "GreedyRange(Prefixed(Byte, Lazy(Int16ub)))", "Prefixed(Byte, GreedyRange(LazyStruct('a'/Byte)))"):
+        out.append(dict(name="terminates  %s" % t, params=dict(kind="terminates", source=t)))
     return out
 
 
 def harness(ctx, C, p):
     kind = p["kind"]
+    if kind == "terminates":
+        d = mk(C, p["source"])
+        data = ctx.bytes("data", 3)
+        r = api.time_capped(d.parse, 3, data)
+        ctx.check("parse of a 3-byte input terminates (3 s CPU cap)", r.ok or not isinstance(r.exc, api.NonTermination))
+        if not r.ok:
+            ctx.check("and fails only with ConstructError", isinstance(r.exc, C.ConstructError))
+        return "ok"
     if kind == "arbitrary":
         spec = T(p["spec"])
         d = mk(C, src(spec))
